@@ -1,4 +1,5 @@
 import DryocVerif.Proofs.Argon2Spec
+import DryocVerif.Proofs.GenArgon2
 /-
 C09 — Argon2 (`src/argon2.rs`) and `crypto_pwhash` (`src/classic/crypto_pwhash.rs`).
 Property theorems only; helper lemmas live in `DryocVerif/Proofs/Argon2.lean` (the model
@@ -361,5 +362,56 @@ theorem fill_block_eq_G (prev ref next : Block) (withXor : Bool) :
     fillBlock prev ref next withXor =
       if withXor then Spec.Argon2.xorBlock (Spec.Argon2.G prev ref) next else Spec.Argon2.G prev ref :=
   Proofs.Argon2.fillBlock_eq prev ref next withXor
+
+/-! ### Tie to the source: the machine-translated kernels of `argon2.rs` (`DryocVerif/Gen/Argon2.lean`, regenerated by
+`tools/rs2lean.py` on every run) equal the hand-written model. -/
+
+/-- `fblamka` as translated = the model's fBlaMka on every pair of words -/
+theorem translated_fblamka (x y : UInt64) :
+    Gen.Argon2.fblamka x.toNat y.toNat = (Model.Argon2.fblamka x y).toNat :=
+  Proofs.GenArgon2.fblamka_eq_model x y
+
+/-- `blake2_round_nomsg` (translated once, at the identity index tuple) is what the model's round does at ANY sixteen
+pairwise distinct in-range indices: those words become `round16` of the gathered words, all others are unchanged -/
+theorem translated_round_generic (b : Block) (i0 i1 i2 i3 i4 i5 i6 i7 i8 i9 i10 i11 i12 i13 i14 i15 : Nat)
+    (hnd : [i0, i1, i2, i3, i4, i5, i6, i7, i8, i9, i10, i11, i12, i13, i14, i15].Nodup)
+    (hlt : ∀ i ∈ [i0, i1, i2, i3, i4, i5, i6, i7, i8, i9, i10, i11, i12, i13, i14, i15], i < b.size) :
+    let b' := blake2RoundNomsg b i0 i1 i2 i3 i4 i5 i6 i7 i8 i9 i10 i11 i12 i13 i14 i15
+    b'.size = b.size
+    ∧ Proofs.GenArgon2.toNat16 (Proofs.GenArgon2.reads16 b' i0 i1 i2 i3 i4 i5 i6 i7 i8 i9 i10 i11 i12 i13 i14 i15)
+        = Gen.Argon2.round16 b[i0]!.toNat b[i1]!.toNat b[i2]!.toNat b[i3]!.toNat b[i4]!.toNat
+            b[i5]!.toNat b[i6]!.toNat b[i7]!.toNat b[i8]!.toNat b[i9]!.toNat b[i10]!.toNat
+            b[i11]!.toNat b[i12]!.toNat b[i13]!.toNat b[i14]!.toNat b[i15]!.toNat
+    ∧ ∀ j, j ∉ [i0, i1, i2, i3, i4, i5, i6, i7, i8, i9, i10, i11, i12, i13, i14, i15] → b'[j]! = b[j]! :=
+  Proofs.GenArgon2.round_generic b i0 i1 i2 i3 i4 i5 i6 i7 i8 i9 i10 i11 i12 i13 i14 i15 hnd hlt
+
+/-- the index tuples `fill_block` passes to the round (extracted from the source: 8 rows, then 8 columns) are the ones
+the model uses, and they are sixteen distinct indices below 128 each -/
+theorem translated_fill_tables (prevBlock refBlock nextBlock : Block) (withXor : Bool) :
+    fillBlock prevBlock refBlock nextBlock withXor =
+      xorBlock (if withXor then xorBlock (xorBlock refBlock prevBlock) nextBlock else xorBlock refBlock prevBlock)
+        (Gen.Argon2.FILL_COLS.foldl Proofs.GenArgon2.applyRound
+          (Gen.Argon2.FILL_ROWS.foldl Proofs.GenArgon2.applyRound (xorBlock refBlock prevBlock))) :=
+  Proofs.GenArgon2.fill_tables_eq_model prevBlock refBlock nextBlock withXor
+
+theorem translated_fill_tables_wf :
+    ∀ t ∈ Gen.Argon2.FILL_ROWS ++ Gen.Argon2.FILL_COLS, t.length = 16 ∧ t.Nodup ∧ ∀ i ∈ t, i < 128 :=
+  Proofs.GenArgon2.fill_tables_wf
+
+/-- `index_alpha` as translated (plain ℕ arithmetic) returns the model's value whenever no checked operation of the model
+panics … -/
+theorem translated_index_alpha (inst : Instance) (pos : Position) (pseudoRand : Nat) (sameLane : Bool)
+    (v : Nat) (h : Model.Argon2.indexAlpha inst pos pseudoRand sameLane = .ok v) :
+    Gen.Argon2.index_alpha inst.passes inst.memoryBlocks inst.segmentLength inst.laneLength inst.lanes
+      pos.pass pos.lane pos.slice pos.index pseudoRand sameLane = v :=
+  Proofs.GenArgon2.index_alpha_eq_model inst pos pseudoRand sameLane v h
+
+/-- … which is the case on every reachable instance/position, where it is RFC 9106's reference index -/
+theorem translated_index_alpha_eq_rfc {inst : Instance} {pos : Position} {j1 : Nat} (sameLane : Bool)
+    (hsl : 2 ≤ inst.segmentLength) (hll : inst.laneLength = 4 * inst.segmentLength)
+    (h7 : 7 * inst.segmentLength < 2 ^ 32 + 3) (hp : PosInv inst pos) (hj : j1 < 2 ^ 32) :
+    Gen.Argon2.index_alpha inst.passes inst.memoryBlocks inst.segmentLength inst.laneLength inst.lanes
+      pos.pass pos.lane pos.slice pos.index j1 sameLane = Proofs.Argon2.refIndexN inst pos j1 sameLane :=
+  Proofs.GenArgon2.index_alpha_eq_refIndexN sameLane hsl hll h7 hp hj
 
 end DryocVerif.Properties.C09
